@@ -222,7 +222,7 @@ def run_parallel(ck, fn, items, jobs=None):
     else:
         with multiprocessing.get_context("fork").Pool(jobs) as pool:
             parts = pool.map(_run_part, args, chunksize=1)
-    seen_known = {k for k, _ in ck.known_hits}
+    seen_known = {repr(k) for k, _ in ck.known_hits}
     for it, st in zip(items, parts):
         if st["error"]:
             raise HarnessError(f"worker for {it} failed: {st['error']}")
